@@ -112,3 +112,26 @@ func VerifSampleTokens(s *Sampler, in []VTok) (VTok, string) {
 	}
 	return VTok{ID: t.id, Bits: math.Float32bits(t.value)}, ""
 }
+
+// VerifScriptSamplerG is VerifScriptSampler with a grammar (the real NewSampler, then the scripted source).
+func VerifScriptSamplerG(temp, topP, minP uint32, topK int, words []uint64, g *Grammar) (*Sampler, func() int) {
+	s := NewSampler(math.Float32frombits(temp), topK, math.Float32frombits(topP), math.Float32frombits(minP), 0, g)
+	src := &verifScript{words: words}
+	s.rng = rand.New(src)
+	return &s, func() int { return src.Used }
+}
+
+// VerifGrammarMask reports, for ids 0..n-1, whether the grammar (in its current state) rejects the id, by the same
+// Apply the sampler uses (a rejected token's value becomes -Inf).
+func VerifGrammarMask(g *Grammar, n int) []bool {
+	ts := make([]token, n)
+	for i := range ts {
+		ts[i] = token{id: int32(i), value: 0}
+	}
+	g.Apply(ts)
+	out := make([]bool, n)
+	for i := range ts {
+		out[i] = math.IsInf(float64(ts[i].value), -1)
+	}
+	return out
+}
